@@ -829,16 +829,28 @@ TB = 'src/libawkward/builder/TupleBuilder.cpp'
 
 
 @guard
-def h_tuple_index(k, nxt_c):
+def h_tuple_index(k, nxt_c, active=False):
     """TupleBuilder::index(i) from any state (open or not, any field selected, no field builder active) of a tuple with k fields: a position outside
     0..k-1 - negative ones included - or a tuple that was not begun is refused; otherwise field i becomes the selected field.  The selection
-    afterwards is always -1 (none) or a field of the tuple: the next value goes through contents_[nextindex_]"""
+    afterwards is always -1 (none) or a field of the tuple: the next value goes through contents_[nextindex_].  With `active` the selected field
+    builder is itself in the middle of a nested tuple: the position then belongs to that nested tuple - it is handed on unchanged, whatever
+    the width of the outer tuple, and the outer selection does not move"""
     from .cpp01 import struct_of
     slots, nslots = builder_slots()
     mod = module_of(TB)
     fo, sz, al, fields = mod.types.struct_layout(struct_of(mod, '_ZN7awkward12TupleBuilder5indexEl'))
     stubs = dict(COMMON_STUBS)
     stubs.update(_child_stubs(slots))
+    handed = []
+    if active:
+        stubs['vf$slot%d' % slots['6activeEv']] = lambda eng, fr, ins, st, name, argv: z3.BitVecVal(1, 1)
+
+        def s_index(eng, fr, ins, st, name, argv):
+            handed.append((st.pc, argv[2]))
+            rec = st.mem.o[argv[0].obj]
+            rec.cells[argv[0].off] = (argv[1], 8); rec.cells[argv[0].off + 8] = (NULL, 8)
+            return None
+        stubs['vf$slot%d' % slots['5indexEl']] = s_index
     stubs['_ZNSt7__cxx119to_stringEm'] = nodeh.s_empty_string
     m = MCtx([TB, GB], unwind=k + 8, stubs=stubs)
     m.record('fakevt', {8 * j: (Ptr(('func', 'vf$slot%d' % j), 0), 8) for j in range(nslots)}, const=True)
@@ -862,6 +874,13 @@ def h_tuple_index(k, nxt_c):
     out = m.call('_ZN7awkward12TupleBuilder5indexEl', [Ptr('ret', 0), this, idx])
     bad = z3.Or(begun == 0, idx < 0, idx >= k)
     n1 = out.mem.o['tb'].cells[fo[5]][0]
+    if active and nxt_c >= 0:
+        bad = begun == 0
+        obls = [('with a nested tuple open the position is refused only when the outer tuple is not open', z3.simplify(out.raised) != bad),
+                ('the position is handed to the nested tuple unchanged', z3.And(z3.Not(out.raised), z3.Not(z3.Or([z3.And(pc, v == idx) for pc, v in handed] + [z3.BoolVal(False)])))),
+                ('the outer selection does not move', z3.And(z3.Not(out.raised), n1 != nxt_c))]
+        return mdischarge(m, 'TupleBuilder::index with %d fields, field %d selected and in a nested tuple' % (k, nxt_c), obls, [], replay=None if False else _nested_index_replay(k, nxt_c, idx, begun), prefer=[idx >= -5, idx <= 5],
+                          extra=dict(bounds='%d fields (case split), any int64 position, open / not open, the selected field builder active' % k))
     obls = [('raises exactly when the tuple is not open or the position is not one of its fields', z3.simplify(out.raised) != bad),
             ('the selected field afterwards is none or a field of the tuple', z3.And(z3.Not(out.raised), z3.Or(n1 < -1, n1 >= k))),
             ('an accepted position becomes the selected field', z3.And(z3.Not(out.raised), n1 != idx))]
@@ -902,11 +921,53 @@ int main(int argc, char** argv) {
                       extra=dict(bounds='%d fields (case split), any int64 position, open / not open, any selected field, no field builder active' % k))
 
 
+
+
+def _nested_index_replay(k, nxt_c, idx, begun):
+    def replay(model, ent_):
+        import subprocess, os
+        ev = lambda t: model.eval(t, model_completion=True)
+        iv, bg = ev(idx).as_signed_long(), ev(begun).as_long()
+        if not bg or not (0 <= iv <= 6):
+            return False, 'only open outer tuples and small nested positions are replayed', {}
+        drv = r'''
+#include <cstdio>
+#include <cstdlib>
+#include <stdexcept>
+#include "awkward/builder/ArrayBuilder.h"
+#include "awkward/builder/ArrayBuilderOptions.h"
+#include "awkward/Content.h"
+using namespace awkward;
+int main(int argc, char** argv) {
+  int k = atoi(argv[1]), sel = atoi(argv[2]); long idx = atol(argv[3]);
+  ArrayBuilder b(ArrayBuilderOptions(8, 1.5));
+  try {
+    b.begintuple(k); b.index(sel);
+    b.begintuple(idx + 1);            // a nested tuple wide enough for the position
+    b.index(idx);                     // belongs to the nested tuple
+    b.integer(7);
+    printf("bad=0\n"); return 0;
+  } catch (std::exception& e) { printf("bad=1 raised %.70s\n", e.what()); return 1; }
+}
+'''
+        try:
+            exe = fullnative_link(drv)
+        except Exception as e:      # noqa
+            return False, 'replay driver did not build: %s' % str(e)[-600:], {}
+        r = subprocess.run([exe, str(k), str(nxt_c), str(iv)], capture_output=True, text=True, timeout=30,
+                           env=dict(os.environ, ASAN_OPTIONS='detect_leaks=0', UBSAN_OPTIONS='halt_on_error=1:exitcode=87'), errors='replace')
+        payload = dict(fields=k, selected=nxt_c, index=iv, native=r.stdout.strip())
+        if r.returncode != 0:
+            return True, 'tuple of %d fields, field %d holding an open nested tuple of %d fields, index(%d): native builder gives %s' % (k, nxt_c, iv + 1, iv, r.stdout.strip() or r.stderr[-200:]), payload
+        return False, 'native builder agrees (%s)' % r.stdout.strip(), payload
+    return replay
+
+
 _jobs_union = jobs
 
 
 def jobs(tier):
-    return _jobs_union(tier) + [(h_tuple_index, (k, nx), 900) for k in ((0, 2) if tier == 'quick' else (0, 1, 2, 3)) for nx in range(-1, k)]
+    return _jobs_union(tier) + [(h_tuple_index, (k, nx), 900) for k in ((0, 2) if tier == 'quick' else (0, 1, 2, 3)) for nx in range(-1, k)] + [(h_tuple_index, (k, nx, True), 900) for k in ((1, 2) if tier == 'quick' else (1, 2, 3)) for nx in range(0, k)]
 
 
 @guard
